@@ -4,12 +4,14 @@
    caps = stDiGraph.compute_edge_max_reachable_value as the code passes them), tied by E1 (section E1_cycles of the
    C07 engine).  Soundness: every satisfying assignment is k source-to-sink walks with weights of the requested type
    whose error variables dominate |f(e) - sum_i w_i * mult_i(e)| on every non-ignored edge; the objective is the
-   scaled sum of the error variables.  (Completeness is not claimed: the caps are the code's, see the open findings
-   cycles_rep_cap_from_reachable_max / cycles_products_bounded_by_wmax.) *)
+   scaled sum of the error variables.  Completeness and optimality are proved WITHIN THE CAPS of the encoder (repetition caps, bit width, product bound,
+   error-column bound: see the theorems at the end); beyond the caps they are false of the code (open findings
+   cycles_rep_cap_from_reachable_max / cycles_products_bounded_by_wmax). *)
 From Coq Require Import List NArith ZArith QArith Bool Arith Lia Permutation.
 Import ListNotations.
 From FP Require Import Lin Blocks BlocksProofs PathEnc PathEncProofs Euler EulerProofs1 EulerProofs4 WalkDecode
-                       SatCheck WalkEncRows WalkEncRowsProofs WalkExamples WalkErrEnc WalkErrEncProofs WalkErrExamples.
+                       SatCheck WalkEncRows WalkEncRowsProofs WalkExamples WalkErrEnc WalkErrEncProofs WalkErrExamples
+                       WalkTree WalkEncComplete WalkCoverIff WalkErrComplete WalkErrOptimal WalkErrOptExamples.
 Local Close Scope Q_scope.
 
 Theorem C07_walk_lp_solution_is_k_walks_with_dominating_errors : forall (I : werr_inst) (a : var -> Q),
@@ -57,3 +59,68 @@ Proof.
   split; [exact loopG_wf|]. split; [reflexivity|]. split; [exact loop_klae_feasible|]. split; [exact loop_err_basic|].
   split; vm_compute; reflexivity.
 Qed.
+
+(* ------------------------------------------------------------------ completeness and optimality within the caps *)
+(* klaec_admissible I P wt  (WalkErrOptimal.v) =  k source-to-sink walks P whose multiplicities respect the repetition caps
+   the encoder uses (largest reachable weight inside SCCs, 1 outside), its safety fixing and subset constraints (werr_family);
+   weights in [0, w_max] of the requested type; multiplicities on non-ignored edges below 2^bits(w_max) where the product is
+   bit-expanded; weight*multiplicity <= w_max; absolute deviation <= w_max (bound of the error column). *)
+Theorem C07_walk_complete_within_caps : forall (I : werr_inst) (P : N -> list node) (wt : N -> Q),
+  wf_stg (x_graph I) -> werr_domain I -> klaec_admissible I P wt ->
+  exists a, sat a (encode_klae_cycles I) /\ (objective a (encode_klae_cycles I) == klaec_cost I P wt)%Q /\
+            (forall i, a (W i) = wt i) /\ (forall e i, a (evar e i) = inject_Z (mult P i e)).
+Proof. exact klaec_complete. Qed.
+Print Assumptions C07_walk_complete_within_caps.
+
+(* the general form: any error values that dominate the deviation within the column bound *)
+Theorem C07_walk_complete_with_dominating_errors : forall (I : werr_inst) (P : N -> list node) (wt sl : N -> Q)
+    (er : PathEnc.edge -> Q) (ch : N -> N),
+  wf_stg (x_graph I) -> wwalks (werr_walk I) P -> wwithin_caps (werr_walk I) P -> wrespects_fixing (werr_walk I) P ->
+  (forall j c, nth_error (all_cons (werr_walk I)) j = Some c ->
+      In (ch (N.of_nat j)) (layers (x_k I)) /\
+      (qnat (length (nodup_e c)) * w_cov (werr_walk I) <= sumq (usedq P (ch (N.of_nat j))) (nodup_e c))%Q) ->
+  werr_typed I wt -> werr_bits_cap I P -> werr_prod_cap I P wt ->
+  (forall e, In e (x_basic I) ->
+    (Qabs.Qabs (xflow I e - xexpl I P wt e) <= er e <= x_wmax I)%Q /\ (x_int I = true -> is_int (er e))) ->
+  sat (xasg I P wt sl er ch) (encode_klae_cycles I) /\
+  (objective (xasg I P wt sl er ch) (encode_klae_cycles I) == sumq (fun e => xscale I e * er e) (x_basic I))%Q.
+Proof. exact klaec_complete_sat. Qed.
+Print Assumptions C07_walk_complete_with_dominating_errors.
+
+(* every satisfying assignment decodes to an admissible family whose deviations are dominated by the error variables *)
+Theorem C07_walk_decodes_within_caps : forall (I : werr_inst) (a : var -> Q),
+  wf_stg (x_graph I) -> o_allow_empty (x_opts I) = false -> winputs_ok (werr_walk I) -> sat a (encode_klae_cycles I) ->
+  klaec_admissible I (Pofw (werr_walk I) a) (fun i => a (W i)) /\
+  (forall e, In e (x_basic I) -> (klaec_dev I (Pofw (werr_walk I) a) (fun i => a (W i)) e <= a (errvar e))%Q).
+Proof. exact klaec_decodes. Qed.
+Print Assumptions C07_walk_decodes_within_caps.
+
+(* relative to the solver specification: the objective of an optimal satisfying assignment is the LEAST total scaled absolute
+   error over all admissible families (caps visible in klaec_admissible) *)
+Theorem C07_walk_optimal_within_caps : forall (I : werr_inst) (a : var -> Q),
+  wf_stg (x_graph I) -> o_allow_empty (x_opts I) = false -> werr_domain I ->
+  sat a (encode_klae_cycles I) ->
+  (forall b, sat b (encode_klae_cycles I) -> (objective a (encode_klae_cycles I) <= objective b (encode_klae_cycles I))%Q) ->
+  (exists P wt, klaec_admissible I P wt /\ (klaec_cost I P wt == objective a (encode_klae_cycles I))%Q) /\
+  (forall P wt, klaec_admissible I P wt -> (objective a (encode_klae_cycles I) <= klaec_cost I P wt)%Q).
+Proof. exact klaec_optimal. Qed.
+Print Assumptions C07_walk_optimal_within_caps.
+
+(* the statement WITHOUT caps (minimum over all families of k walks and all non-negative weights) is not provable of the code as
+   it is: the caps cut off solutions (open findings); it stays visible here *)
+Definition C07_walk_full_statement : Prop :=
+  forall (I : werr_inst) (a : var -> Q), wf_stg (x_graph I) -> o_allow_empty (x_opts I) = false -> werr_domain I ->
+  sat a (encode_klae_cycles I) ->
+  (forall b, sat b (encode_klae_cycles I) -> (objective a (encode_klae_cycles I) <= objective b (encode_klae_cycles I))%Q) ->
+  forall P wt, wwalks (werr_walk I) P -> wrespects_fixing (werr_walk I) P -> wrealises_constraints (werr_walk I) P ->
+    (forall i, In i (layers (x_k I)) -> (0 <= wt i)%Q /\ (x_int I = true -> is_int (wt i))) ->
+    (objective a (encode_klae_cycles I) <= klaec_cost I P wt)%Q.
+
+(* non-vacuity on a 2-cycle with a tail (s -> a -> b -> t, b -> a; weights 1,2,1,1; k = 1): all premises hold, the constructed
+   assignment (walk s a b a b t of weight 1, a->b used twice) is checked by computation, the optimum is 0 *)
+Example C07_walk_optimal_nonvacuous :
+  wf_stg (x_graph tail_inst) /\ o_allow_empty (x_opts tail_inst) = false /\ werr_domain tail_inst /\
+  sat tail_klae_asg (encode_klae_cycles tail_inst) /\
+  (forall b, sat b (encode_klae_cycles tail_inst) -> (objective tail_klae_asg (encode_klae_cycles tail_inst) <= objective b (encode_klae_cycles tail_inst))%Q) /\
+  (exists P wt, klaec_admissible tail_inst P wt /\ (klaec_cost tail_inst P wt == 0)%Q).
+Proof. exact klaec_optimal_nonvacuous. Qed.
